@@ -9,6 +9,7 @@ package main
 import (
 	"crypto"
 	"crypto/x509"
+	"crypto/x509/pkix"
 	"encoding/asn1"
 	"fmt"
 	"math/big"
@@ -117,11 +118,114 @@ func runC05(r *Run) {
 		e.checkBody(fmt.Sprintf("errresp/%d", i), leaf.Cert, []*x509.Certificate{e.ca.Cert}, []*x509.Certificate{e.ca.Cert}, body, false, nil, "")
 	}
 
+	c05AKIForms(e)
+
 	nMut := 2000
 	if r.Thorough() {
 		nMut = 50000
 	}
 	e.runMutations(nMut)
+}
+
+// c05AKIForms: the issuer candidates of the OCSP check are found through the client certificate's authority key identifier.
+// Whatever form that extension has (key id, issuer name + serial, a URI instead of a name, a serial alone, a name alone,
+// nothing at all), a certificate that merely shares the issuer's *serial number* — configured as a trusted responder
+// certificate or present in another verified chain — does not speak for the issuer: its answers are no answer, and are not
+// cached.
+func c05AKIForms(e *c05Env) {
+	r := e.r
+	twin := NewCA(CAOpts{CN: "C05 serial twin", EC: true, Serial: e.ca.Cert.SerialNumber.Int64(), ExtKeyUsage: []x509.ExtKeyUsage{x509.ExtKeyUsageOCSPSigning}})
+	twinFile := writeFile(scratchDir("c05twin"), "twin.pem", certPEM(twin.Cert))
+	serial := e.ca.Cert.SerialNumber.Bytes()
+	if len(serial) > 0 && serial[0]&0x80 != 0 {
+		serial = append([]byte{0}, serial...)
+	}
+	kid := derTLV(0x80, e.ca.Cert.SubjectKeyId)
+	dir := derTLV(0xA1, derTLV(0xA4, e.ca.Cert.RawIssuer))
+	wrongDir := derTLV(0xA1, derTLV(0xA4, e.stranger.Cert.RawSubject))
+	uri := derTLV(0xA1, derTLV(0x86, []byte("http://ca.example/issuer")))
+	ser := derTLV(0x82, serial)
+	forms := []struct {
+		name  string
+		parts [][]byte
+	}{{"default", nil}, {"kid", [][]byte{kid}}, {"dir+serial", [][]byte{dir, ser}}, {"kid+dir+serial", [][]byte{kid, dir, ser}}, {"uri+serial", [][]byte{uri, ser}},
+		{"kid+uri+serial", [][]byte{kid, uri, ser}}, {"serial", [][]byte{ser}}, {"dir", [][]byte{dir}}, {"uri", [][]byte{uri}}, {"empty", [][]byte{}},
+		{"wrongdir+serial", [][]byte{wrongDir, ser}}}
+	type cs struct {
+		form    int
+		trusted bool
+		status  int
+		signer  string // twin | issuer
+	}
+	var cases []cs
+	for f := range forms {
+		for _, tr := range []bool{true, false} {
+			for _, st := range []int{ocsp.Good, ocsp.Revoked} {
+				cases = append(cases, cs{f, tr, st, "twin"})
+			}
+		}
+		cases = append(cases, cs{f, true, ocsp.Revoked, "issuer"})
+	}
+	parallel(len(cases), 8, func(i int) {
+		c := cases[i]
+		f := forms[c.form]
+		cfg := VCfg{Mode: "ocsp_only", NoCRLConfig: true, OCSPStrict: true, OCSPCacheDur: "1h"}
+		if c.trusted {
+			cfg.OCSPTrusted = []string{twinFile}
+		}
+		v, err := Provision(cfg)
+		if err != nil {
+			r.Violate("C05 provision-failed", "aki forms: "+err.Error(), nil)
+			return
+		}
+		defer v.Close()
+		path := fmt.Sprintf("/c05/aki/%d", i)
+		lo := LeafOpts{OCSP: []string{e.rsp.URL(path)}}
+		if f.parts != nil {
+			lo.Extra = []pkix.Extension{{Id: oidAKI, Value: derSeq(f.parts...)}}
+		}
+		leaf := e.ca.IssueLeaf(lo)
+		chains := [][]*x509.Certificate{{leaf.Cert, e.ca.Cert}}
+		if !c.trusted {
+			chains = append(chains, []*x509.Certificate{leaf.Cert, twin.Cert})
+		}
+		signer := twin
+		if c.signer == "issuer" {
+			signer = e.ca
+		}
+		body := signer.OCSPResponse(OCSPOpts{Status: c.status, Serial: leaf.Cert.SerialNumber, NextUpdate: time.Now().Add(time.Hour)})
+		e.rsp.SetFixed(path, RespScript{Kind: "bytes", Body: body})
+		ch := v.V.VerifOCSPChecker()
+		look := func() string {
+			var res string
+			func() {
+				defer func() {
+					if p := recover(); p != nil {
+						res = "panic"
+					}
+				}()
+				st, err := ch.IsRevoked(leaf.Cert, chains)
+				res = classify(st != nil && st.Revoked, err)
+			}()
+			return res
+		}
+		o1 := look()
+		e.rsp.SetFixed(path, RespScript{Kind: "drop"})
+		o2 := look()
+		key := fmt.Sprintf("aki-form=%s twin-%s status=%d signer=%s", f.name, map[bool]string{true: "trusted-responder", false: "in-second-chain"}[c.trusted], c.status, c.signer)
+		r.Eval("aki/"+key, true)
+		r.Count("aki-form:" + f.name + ":" + c.signer + ":" + o1)
+		if c.signer == "twin" {
+			if o1 != "error" {
+				r.Violate("C05 verdict-from-unentitled-signer aki-form="+f.name, key+": IsRevoked returned "+o1+" on an answer signed by a certificate that only shares the issuer's serial number", nil)
+			}
+			if o2 != "error" {
+				r.Violate("C05 unauthentic-response-cached aki-form="+f.name, key+": with the responder down the second call returned "+o2, nil)
+			}
+		} else if o1 == "panic" {
+			r.Violate("C05 lookup-panicked aki-form="+f.name, key, nil)
+		}
+	})
 }
 
 const c05EndEntitySig = "C05 end-entity-is-issuer-candidate"
